@@ -58,7 +58,13 @@ func main() {
 	name := flag.String("name", "SrcPure", "name of the generated Coq file / program")
 	spec := flag.String("spec", "crc.go:*;encoding.go:*", "file:func,func;file:* ...")
 	world := flag.String("world", "", "comma separated functions whose external calls thread a state value")
+	signed := flag.String("signed", "", "comma separated functions translated in signed mode (int, int64 and time.Duration as two's-complement patterns)")
 	flag.Parse()
+	for _, w := range strings.Split(*signed, ",") {
+		if w = strings.TrimSpace(w); w != "" {
+			signedFns[w] = true
+		}
+	}
 	for _, w := range strings.Split(*world, ",") {
 		if w = strings.TrimSpace(w); w != "" {
 			worldFns[w] = true
@@ -409,6 +415,7 @@ type ftr struct {
 	readonly map[types.Object]bool           // struct parameters other than the receiver: fields may only be read
 	nilSlot  map[types.Object]int            // pointer-to-struct locals and results: slot of the nil flag
 	world    int                             // slot of the world value (-1: none)
+	signed   bool                            // signed mode
 	opaque   map[types.Object]string         // interface-typed parameters: calls on them are external functions <type>.<Method>
 	hoisted  map[*ast.CallExpr]int           // method call hoisted out of an expression -> temporary slot holding its result
 	pre      []string                        // statements to run before the statement being translated (hoisted calls)
@@ -435,7 +442,16 @@ func (t *ftr) newSlot(obj types.Object, name string, ty types.Type) int {
 	return s
 }
 
+func isTimeType(ty types.Type) bool {
+	n, ok := ty.(*types.Named)
+	return ok && n.Obj().Pkg() != nil && n.Obj().Pkg().Path() == "time" && n.Obj().Name() == "Time"
+}
+
 func zeroVal(ty types.Type) (string, bool) {
+	if isTimeType(ty) {
+		// an instant: nanoseconds on an abstract clock
+		return "VN 0", true
+	}
 	switch u := ty.Underlying().(type) {
 	case *types.Basic:
 		if u.Info()&types.IsInteger != 0 || u.Info()&types.IsFloat != 0 {
@@ -524,6 +540,12 @@ func (t *ftr) expandPtr(obj types.Object, name string, st *types.Struct) []int {
 // the function itself gets that value as its last parameter and returns it as
 // its last out
 var worldFns = map[string]bool{}
+
+// functions translated in signed mode: Go's int, int64 and time.Duration are
+// 64-bit two's-complement patterns (arithmetic is U 64, which is how Go's
+// signed arithmetic wraps; ordering is ECmpS); time.Time values are abstract
+// instants counted in nanoseconds
+var signedFns = map[string]bool{}
 
 // does the body of a method mention its receiver at all
 var recvUsed = map[string]bool{}
@@ -627,6 +649,18 @@ func ityOf(ty types.Type) (string, bool) {
 	return "", false
 }
 
+func isSignedInt(ty types.Type) bool {
+	b, ok := ty.Underlying().(*types.Basic)
+	return ok && (b.Kind() == types.Int || b.Kind() == types.Int64)
+}
+
+func (t *ftr) ity(ty types.Type) (string, bool) {
+	if t.signed && isSignedInt(ty) {
+		return "(U 64)", true
+	}
+	return ityOf(ty)
+}
+
 func isFloat(ty types.Type) bool {
 	b, ok := ty.Underlying().(*types.Basic)
 	return ok && b.Info()&types.IsFloat != 0
@@ -636,6 +670,7 @@ func translateFn(q string, fd *ast.FuncDecl, globalsUsed map[string]bool) *fnOut
 	t := &ftr{slots: map[types.Object]int{}, structs: map[types.Object]map[string]int{}, structOrder: map[types.Object][]int{},
 		readonly: map[types.Object]bool{}, nilSlot: map[types.Object]int{}, world: -1, opaque: map[types.Object]string{}, hoisted: map[*ast.CallExpr]int{}, globals: globalsUsed, calls: map[string]bool{}}
 	out := &fnOut{name: q}
+	t.signed = signedFns[q]
 	// receiver: a method that mentions its receiver gets one slot per field of
 	// basic / slice-of-basic type (returned as outs when the receiver is a
 	// pointer); the other fields are opaque. A method that never mentions its
@@ -888,6 +923,16 @@ func (t *ftr) flatArg(e ast.Expr) ([]string, bool) {
 						return nil, false
 					}
 					vals[k.Name] = t.expr(kv.Value)
+					if id, isID := ast.Unparen(kv.Value).(*ast.Ident); isID && id.Name == "nil" {
+						// an untyped nil takes the type of the field it initialises
+						for i := 0; i < st.NumFields(); i++ {
+							if st.Field(i).Name() == k.Name {
+								if _, isSlice := st.Field(i).Type().Underlying().(*types.Slice); isSlice {
+									vals[k.Name] = "ELit ENil"
+								}
+							}
+						}
+					}
 				}
 				var r []string
 				for i := 0; i < st.NumFields(); i++ {
@@ -982,14 +1027,23 @@ func (t *ftr) oracleCall(c *ast.CallExpr) (string, bool) {
 	if !ok {
 		return "", false
 	}
-	if id, isID := sel.X.(*ast.Ident); isID {
+	if pre, ok := t.oracleRecv(sel.X); ok {
+		return pre + "." + sel.Sel.Name, true
+	}
+	return "", false
+}
+
+// the external object a call goes through: an interface-typed parameter, or an
+// interface-typed field of an expanded struct variable that has no slot
+func (t *ftr) oracleRecv(x ast.Expr) (string, bool) {
+	if id, isID := x.(*ast.Ident); isID {
 		if obj := info.Uses[id]; obj != nil {
 			if tn, isOpaque := t.opaque[obj]; isOpaque {
-				return tn + "." + sel.Sel.Name, true
+				return tn, true
 			}
 		}
 	}
-	inner, ok := sel.X.(*ast.SelectorExpr)
+	inner, ok := x.(*ast.SelectorExpr)
 	if !ok {
 		return "", false
 	}
@@ -1014,7 +1068,63 @@ func (t *ftr) oracleCall(c *ast.CallExpr) (string, bool) {
 	if _, isIface := tv.Type.Underlying().(*types.Interface); !isIface {
 		return "", false
 	}
-	return inner.Sel.Name + "." + sel.Sel.Name, true
+	return inner.Sel.Name, true
+}
+
+// n, err = io.ReadFull(x, buf[lo:hi]) through an external object x: the
+// external function <x>.ReadFull is asked for hi-lo bytes and answers with the
+// bytes it read (at most that many) and an error; the bytes are stored into
+// buf from lo on, n is their number
+func (t *ftr) readFull(c *ast.CallExpr, nDest, errDest string) (string, bool) {
+	if !isPkgFunc(c, "io", "ReadFull") || len(c.Args) != 2 || t.world < 0 {
+		return "", false
+	}
+	pre, ok := t.oracleRecv(c.Args[0])
+	if !ok {
+		return "", false
+	}
+	var base *ast.Ident
+	lo, hi := "EN 0", ""
+	switch b := ast.Unparen(c.Args[1]).(type) {
+	case *ast.Ident:
+		base = b
+	case *ast.SliceExpr:
+		id, isID := b.X.(*ast.Ident)
+		if !isID || b.Slice3 {
+			return "", false
+		}
+		base = id
+		if b.Low != nil {
+			lo = t.expr(b.Low)
+		}
+		if b.High != nil {
+			hi = t.expr(b.High)
+		}
+	default:
+		return "", false
+	}
+	bs, ok := t.slotOf(base)
+	if !ok {
+		return "", false
+	}
+	if hi == "" {
+		hi = fmt.Sprintf("ELen (EVar %d)", bs)
+	}
+	ty := "I64"
+	if t.signed {
+		ty = "(U 64)"
+	}
+	tmp := t.newSlot(nil, "_read", types.NewSlice(types.Typ[types.Uint8]))
+	w := t.world
+	call := fmt.Sprintf("SCall %s (%s) [LVar %d; LVar %d; %s]", coqStr(pre+".ReadFull"),
+		exprList([]string{fmt.Sprintf("EVar %d", w), fmt.Sprintf("EBin OSub %s (%s) (%s)", ty, hi, lo)}), w, tmp, errDest)
+	splice := fmt.Sprintf("SSet (LVar %d) (EAppendSlice (EAppendSlice (ESlice (EVar %d) (EN 0) (%s)) (EVar %d)) (ESlice (EVar %d) (EBin OAdd %s (%s) (ELen (EVar %d))) (ELen (EVar %d))))",
+		bs, bs, lo, tmp, bs, ty, lo, tmp, bs)
+	parts := []string{call, splice}
+	if nDest != "LBlank" {
+		parts = append(parts, fmt.Sprintf("SSet (%s) (ELen (EVar %d))", nDest, tmp))
+	}
+	return seq(parts), true
 }
 
 func (t *ftr) slotOf(id *ast.Ident) (int, bool) {
@@ -1104,6 +1214,7 @@ func (t *ftr) methodCall(c *ast.CallExpr) (name string, recv []int, update bool,
 // translate a call statement / multi-valued call: callee name, flattened
 // arguments, receiver destinations
 func (t *ftr) callParts(c *ast.CallExpr) (name string, args []string, recvDests []string, ok bool) {
+	worldLast := false
 	if n, recv, update, _, isM := t.methodCall(c); isM {
 		name = n
 		args = append(args, evars(recv)...)
@@ -1111,12 +1222,17 @@ func (t *ftr) callParts(c *ast.CallExpr) (name string, args []string, recvDests 
 			recvDests = lvars(recv)
 		}
 		t.calls[name] = true
+		worldLast = worldFns[name]
 	} else if n, isO := t.oracleCall(c); isO {
 		name = n
 		if t.world >= 0 {
 			args = append(args, fmt.Sprintf("EVar %d", t.world))
 			recvDests = []string{fmt.Sprintf("LVar %d", t.world)}
 		}
+	} else if isPkgFunc(c, "time", "Sleep") && t.world >= 0 {
+		name = "time.Sleep"
+		args = append(args, fmt.Sprintf("EVar %d", t.world))
+		recvDests = []string{fmt.Sprintf("LVar %d", t.world)}
 	} else if id, isID := c.Fun.(*ast.Ident); isID {
 		fobj, isF := info.Uses[id].(*types.Func)
 		if !isF || fobj.Pkg() != pkg {
@@ -1124,15 +1240,29 @@ func (t *ftr) callParts(c *ast.CallExpr) (name string, args []string, recvDests 
 		}
 		name = id.Name
 		t.calls[name] = true
+		worldLast = worldFns[name]
 	} else {
 		return
 	}
+	if worldLast && t.world < 0 {
+		return "", nil, nil, false
+	}
 	for _, a := range c.Args {
+		if worldLast {
+			// the external object a world-threading callee works on is part of the world
+			if _, isO := t.oracleRecv(a); isO {
+				continue
+			}
+		}
 		fa, okA := t.flatArg(a)
 		if !okA {
 			return "", nil, nil, false
 		}
 		args = append(args, fa...)
+	}
+	if worldLast {
+		args = append(args, fmt.Sprintf("EVar %d", t.world))
+		recvDests = append(recvDests, fmt.Sprintf("LVar %d", t.world))
 	}
 	ok = true
 	return
@@ -1161,6 +1291,7 @@ func evars(slots []int) []string {
 func (t *ftr) hoist(e ast.Expr) {
 	var calls []*ast.CallExpr
 	var meth []*ast.CallExpr
+	var nows []*ast.CallExpr
 	ast.Inspect(e, func(n ast.Node) bool {
 		c, ok := n.(*ast.CallExpr)
 		if !ok {
@@ -1174,18 +1305,41 @@ func (t *ftr) hoist(e ast.Expr) {
 				return true
 			}
 		}
+		if _, done := t.hoisted[c]; done {
+			return true
+		}
+		if t.world >= 0 && t.signed {
+			// reading the clock is an external call; t.Add / t.Sub are arithmetic
+			if isPkgFunc(c, "time", "Now") || isPkgFunc(c, "time", "Since") {
+				nows = append(nows, c)
+				return true
+			}
+			if _, isT := timeMethod(c); isT {
+				return true
+			}
+		}
 		calls = append(calls, c)
 		if _, _, _, _, ok := t.methodCall(c); ok {
 			meth = append(meth, c)
 		}
 		return true
 	})
-	if len(meth) != 1 || len(calls) != 1 {
+	if len(nows) == 1 && len(calls) == 0 {
+		tmp := t.newSlot(nil, "_now", types.Typ[types.Uint64])
+		t.pre = append(t.pre, fmt.Sprintf("SCall %s (%s) [LVar %d; LVar %d]", coqStr("time.Now"),
+			exprList([]string{fmt.Sprintf("EVar %d", t.world)}), t.world, tmp))
+		t.hoisted[nows[0]] = tmp
+		return
+	}
+	if len(meth) != 1 || len(calls) != 1 || len(nows) != 0 {
 		return
 	}
 	c := meth[0]
 	name, recv, update, nres, _ := t.methodCall(c)
 	if nres != 1 {
+		return
+	}
+	if worldFns[name] && t.world < 0 {
 		return
 	}
 	tmp := t.newSlot(nil, "_tmp", info.Types[c].Type)
@@ -1201,6 +1355,10 @@ func (t *ftr) hoist(e ast.Expr) {
 	var dests []string
 	if update {
 		dests = append(dests, lvars(recv)...)
+	}
+	if worldFns[name] {
+		args = append(args, fmt.Sprintf("EVar %d", t.world))
+		dests = append(dests, fmt.Sprintf("LVar %d", t.world))
 	}
 	dests = append(dests, fmt.Sprintf("LVar %d", tmp))
 	t.calls[name] = true
@@ -1219,6 +1377,13 @@ func exprList(es []string) string {
 		return "ENil"
 	}
 	return "ECons (" + es[0] + ") (" + exprList(es[1:]) + ")"
+}
+
+func (t *ftr) blankOrLval(e ast.Expr) (string, bool) {
+	if id, ok := e.(*ast.Ident); ok && id.Name == "_" {
+		return "LBlank", true
+	}
+	return t.lval(e)
 }
 
 func (t *ftr) stmt(s ast.Stmt) string {
@@ -1252,6 +1417,14 @@ func (t *ftr) stmt1(s ast.Stmt) string {
 			if t.ignorable(c) {
 				return "SSkip"
 			}
+			if st, ok := t.readFull(c, "LBlank", "LBlank"); ok {
+				return st
+			}
+			if t.world >= 0 {
+				for _, a := range c.Args {
+					t.hoist(a)
+				}
+			}
 			if name, args, dests, ok := t.callParts(c); ok {
 				if sig, isSig := info.Types[c.Fun].Type.(*types.Signature); isSig {
 					for i := 0; i < sig.Results().Len(); i++ {
@@ -1278,7 +1451,7 @@ func (t *ftr) stmt1(s ast.Stmt) string {
 		return unsupS("defer", s)
 	case *ast.IncDecStmt:
 		l, ok := t.lval(x.X)
-		ty, ok2 := ityOf(info.Types[x.X].Type)
+		ty, ok2 := t.ity(info.Types[x.X].Type)
 		if !ok || !ok2 {
 			return unsupS("inc/dec", s)
 		}
@@ -1293,7 +1466,7 @@ func (t *ftr) stmt1(s ast.Stmt) string {
 				return unsupS("op-assignment", s)
 			}
 			l, ok := t.lval(x.Lhs[0])
-			ty, ok2 := ityOf(info.Types[x.Lhs[0]].Type)
+			ty, ok2 := t.ity(info.Types[x.Lhs[0]].Type)
 			if !ok || !ok2 {
 				return unsupS("op-assignment", s)
 			}
@@ -1305,9 +1478,24 @@ func (t *ftr) stmt1(s ast.Stmt) string {
 		// a call assigned to its destinations (struct-typed values are flattened)
 		if len(x.Rhs) == 1 {
 			if c, ok := ast.Unparen(x.Rhs[0]).(*ast.CallExpr); ok {
+				if isPkgFunc(c, "io", "ReadFull") && len(x.Lhs) == 2 {
+					nd, ok1 := t.blankOrLval(x.Lhs[0])
+					ed, ok2 := t.blankOrLval(x.Lhs[1])
+					if ok1 && ok2 {
+						if st, ok := t.readFull(c, nd, ed); ok {
+							return st
+						}
+					}
+					return unsupS("io.ReadFull", s)
+				}
 				_, isMeth, _, _, okM := t.methodCall(c)
 				_ = isMeth
 				_, okO := t.oracleCall(c)
+				if t.world >= 0 && (okO || okM) {
+					for _, a := range c.Args {
+						t.hoist(a)
+					}
+				}
 				structDest := false
 				for _, l := range x.Lhs {
 					if _, isS := t.structVar(l); isS {
@@ -1412,6 +1600,7 @@ func (t *ftr) stmt1(s ast.Stmt) string {
 		if x.Else != nil {
 			els = t.stmt(x.Else)
 		}
+		t.hoist(x.Cond)
 		parts = append(parts, fmt.Sprintf("SIf (%s)\n(%s)\n(%s)", t.expr(x.Cond), t.block(x.Body.List), els))
 		return seq(parts)
 	case *ast.SwitchStmt:
@@ -1673,6 +1862,33 @@ func binaryFn(c *ast.CallExpr, prefix string) (big bool, k int, ok bool) {
 	return
 }
 
+// pkg.Name(...) for a function of the standard library
+func isPkgFunc(c *ast.CallExpr, path, name string) bool {
+	sel, ok := c.Fun.(*ast.SelectorExpr)
+	if !ok || sel.Sel.Name != name {
+		return false
+	}
+	id, ok := sel.X.(*ast.Ident)
+	if !ok {
+		return false
+	}
+	pn, ok := info.Uses[id].(*types.PkgName)
+	return ok && pn.Imported().Path() == path
+}
+
+// t.Add(d) / t.Sub(u) on an instant
+func timeMethod(c *ast.CallExpr) (string, bool) {
+	sel, ok := c.Fun.(*ast.SelectorExpr)
+	if !ok || (sel.Sel.Name != "Add" && sel.Sel.Name != "Sub") {
+		return "", false
+	}
+	tv, ok := info.Types[sel.X]
+	if !ok || !isTimeType(tv.Type) {
+		return "", false
+	}
+	return sel.Sel.Name, true
+}
+
 func isTimeoutCall(c *ast.CallExpr) bool {
 	sel, ok := c.Fun.(*ast.SelectorExpr)
 	if !ok {
@@ -1744,6 +1960,13 @@ func (t *ftr) expr(e ast.Expr) string {
 			if n, ok := constN(tv.Value); ok {
 				return "EN " + n
 			}
+			if t.signed && isSignedInt(tv.Type) {
+				// two's complement
+				v := constant.BinaryOp(constant.Shift(constant.MakeInt64(1), token.SHL, 64), token.ADD, tv.Value)
+				if n, ok := constN(v); ok {
+					return "EN " + n
+				}
+			}
 			return unsupE("negative constant", e)
 		case constant.Bool:
 			return fmt.Sprintf("EB %v", constant.BoolVal(tv.Value))
@@ -1793,6 +2016,16 @@ func (t *ftr) expr(e ast.Expr) string {
 			}
 			return fmt.Sprintf("EVar %d", s)
 		}
+		if id, ok := x.X.(*ast.Ident); ok {
+			if pn, ok := info.Uses[id].(*types.PkgName); ok && pn.Imported().Path() == "io" {
+				switch x.Sel.Name {
+				case "ErrUnexpectedEOF":
+					return fmt.Sprintf("EN %d", len(errNames)+3)
+				case "EOF":
+					return fmt.Sprintf("EN %d", len(errNames)+4)
+				}
+			}
+		}
 		return unsupE("selector", e)
 	case *ast.BinaryExpr:
 		if x.Op == token.LAND {
@@ -1824,15 +2057,24 @@ func (t *ftr) expr(e ast.Expr) string {
 			} else if b, ok := lt.Underlying().(*types.Basic); !ok || b.Info()&(types.IsInteger|types.IsBoolean) == 0 {
 				return unsupE("comparison of non-integers", e)
 			}
+			if t.signed && (isSignedInt(lt) || isSignedInt(info.Types[x.Y].Type)) {
+				return fmt.Sprintf("ECmpS %s (%s) (%s)", op, t.expr(x.X), t.expr(x.Y))
+			}
+			if isTimeType(lt) {
+				return unsupE("comparison of instants", e)
+			}
 			return fmt.Sprintf("ECmp %s (%s) (%s)", op, t.expr(x.X), t.expr(x.Y))
 		}
 		if op, ok := binOps[x.Op]; ok {
 			if !hasTV {
 				return unsupE("untyped expression", e)
 			}
-			ty, ok := ityOf(tv.Type)
+			ty, ok := t.ity(tv.Type)
 			if !ok {
 				return unsupE("arithmetic outside the integer fragment ("+tv.Type.String()+")", e)
+			}
+			if t.signed && isSignedInt(tv.Type) && (op == "ODiv" || op == "OMod" || op == "OShr") {
+				return unsupE("signed division or shift", e)
 			}
 			return fmt.Sprintf("EBin %s %s (%s) (%s)", op, ty, t.expr(x.X), t.expr(x.Y))
 		}
@@ -1843,9 +2085,13 @@ func (t *ftr) expr(e ast.Expr) string {
 			return fmt.Sprintf("ENot (%s)", t.expr(x.X))
 		case token.ADD:
 			return t.expr(x.X)
+		case token.SUB:
+			if t.signed && hasTV && isSignedInt(tv.Type) {
+				return fmt.Sprintf("EBin OSub (U 64) (EN 0) (%s)", t.expr(x.X))
+			}
 		case token.XOR:
 			if b, ok := tv.Type.Underlying().(*types.Basic); ok && b.Info()&types.IsUnsigned != 0 {
-				ty, _ := ityOf(tv.Type)
+				ty, _ := t.ity(tv.Type)
 				w := map[string]string{"(U 8)": "255", "(U 16)": "65535", "(U 32)": "4294967295", "(U 64)": "18446744073709551615"}[ty]
 				if w != "" {
 					return fmt.Sprintf("EBin OXor %s (%s) (EN %s)", ty, t.expr(x.X), w)
@@ -1904,10 +2150,10 @@ func (t *ftr) expr(e ast.Expr) string {
 			if fb, ok := from.Underlying().(*types.Basic); !ok || fb.Info()&types.IsInteger == 0 {
 				return unsupE("conversion from a non-integer", e)
 			}
-			if _, ok := ityOf(from); !ok {
+			if _, ok := t.ity(from); !ok {
 				return unsupE("conversion from an integer type outside the fragment", e)
 			}
-			ty, ok := ityOf(ftv.Type)
+			ty, ok := t.ity(ftv.Type)
 			if !ok {
 				return unsupE("conversion to "+ftv.Type.String(), e)
 			}
@@ -1942,6 +2188,10 @@ func (t *ftr) expr(e ast.Expr) string {
 					if !ok {
 						return unsupE("make of "+st.String(), e)
 					}
+					if t.signed {
+						// a negative length is outside the fragment (Go panics)
+						return fmt.Sprintf("EMake (%s) (EConv I64 (%s))", z, t.expr(x.Args[1]))
+					}
 					return fmt.Sprintf("EMake (%s) (%s)", z, t.expr(x.Args[1]))
 				}
 				return unsupE("builtin "+id.Name, e)
@@ -1959,7 +2209,17 @@ func (t *ftr) expr(e ast.Expr) string {
 			return fmt.Sprintf("EBytesToUint %v %d%%nat (%s)", big, k, t.expr(x.Args[0]))
 		}
 		if tmp, ok := t.hoisted[x]; ok {
+			if isPkgFunc(x, "time", "Since") {
+				return fmt.Sprintf("EBin OSub (U 64) (EVar %d) (%s)", tmp, t.expr(x.Args[0]))
+			}
 			return fmt.Sprintf("EVar %d", tmp)
+		}
+		if m, ok := timeMethod(x); ok && t.signed && len(x.Args) == 1 {
+			recv := x.Fun.(*ast.SelectorExpr).X
+			if m == "Add" {
+				return fmt.Sprintf("EBin OAdd (U 64) (%s) (%s)", t.expr(recv), t.expr(x.Args[0]))
+			}
+			return fmt.Sprintf("EBin OSub (U 64) (%s) (%s)", t.expr(recv), t.expr(x.Args[0]))
 		}
 		if isTimeoutCall(x) && len(x.Args) == 1 {
 			// os.IsTimeout(err): error value 2 is "an i/o error that reports a timeout"
